@@ -605,13 +605,37 @@ def check_transform(fns, what, bad):
         muts = [e for e in bp.events() if e[1].startswith('call:') or e[1] in ('attrstore', 'substore')]
         calls = [e for e in bp.events('assign') if isinstance(e[3], tuple) and e[3][:1] == ('CALL',)
                  and e[3][1] == ('ITEM', ('VAR', vararg))]
-        if len(calls) != 1:
-            bad('C16-once', f'{what}: a callback is applied {len(calls)} times per node')
+        # applications = call expressions of the loop variable evaluated on this path (a value that is
+        # merely passed on - returned by a local helper, re-assigned - is not applied again)
+        fvar = lp[1].target.id if isinstance(lp[1], ast.For) and isinstance(lp[1].target, ast.Name) else None
+        applied = {}
+        for e in calls:
+            stn = e[4] if len(e) > 4 else None
+            sites = [c for c in ast.walk(stn.value) if isinstance(c, ast.Call) and isinstance(c.func, ast.Name)
+                     and c.func.id == fvar] if isinstance(stn, (ast.Assign, ast.AnnAssign, ast.AugAssign)) and fvar else None
+            if sites is None:
+                applied[id(e)] = e
+            else:
+                for c in sites:
+                    applied[id(c)] = e
+        if len(applied) != 1:
+            bad('C16-once', f'{what}: a callback is applied {len(applied)} times per node')
             continue
         NEW = calls[0][3]
         PREV = NEW[2] if len(NEW) == 3 else None
+        COPY = ('CALL', ('ATTR', NEW, '_replace'))
         for e in muts:
             if e[1] == 'call:update' and e[2] == ('ATTR', NEW, '_metadata') and e[3] == (('ATTR', PREV, '_metadata'),):
+                # the object a callback hands back is not the chain's to write to: it may be a node of the input
+                # tree (`lambda n: n.inner`) or one object returned for many nodes - the metadata goes onto a copy
+                bad('C16-pure', f'{what}: the callback chain writes the position metadata into the very object a '
+                                f'callback returned ({P.tfmt(e[2])}.update): when that object is a node of the input '
+                                f'tree the input is modified, when it is returned for several nodes all of them get the '
+                                f'position of the first; a copy (`node._replace()`) must receive the metadata')
+            elif e[1] == 'call:update' and e[2] == ('ATTR', COPY, '_metadata') and e[3] == (('ATTR', PREV, '_metadata'),):
+                if bp.env.get(cb.args.args[0].arg) != COPY and COPY not in P.subterms(bp.env.get(cb.args.args[0].arg)):
+                    bad('C16-metadata', f'{what}: the annotated copy of a callback result is not what the chain goes '
+                                        f'on with ({P.tfmt(bp.env.get(cb.args.args[0].arg))})')
                 need = {
                     'node is not prev': any((t[2] and t[1] in (('CMP', ('IsNot',), NEW, PREV), ('CMP', ('IsNot',), PREV, NEW)))
                                             or ((not t[2]) and t[1] in (('CMP', ('Is',), NEW, PREV), ('CMP', ('Is',), PREV, NEW)))
